@@ -85,6 +85,7 @@ def seed_cases(rng, n):
 def gen_cases(rng, n, kinds=('doc', 'prefix', 'delete', 'insert', 'soup'), seed_share=0.3):
     """yields (case, doc or None, kind)"""
     yield from seed_cases(rng, int(n * seed_share))
+    yield from catalogue_cases(rng, int(n * 0.15))
     for i in range(n):
         lang_doc = i % 2 == 0
         kind = kinds[i % len(kinds)] if i % 3 else 'doc'
@@ -139,10 +140,82 @@ def run(cases, res, stream, project, oracle, sample_rule=None):
             res.failures.append(('%s:%r' % (stream, c.key()), c.json(), bad))
 
 
+_CAT = None
+CAT_SKIP = {'\\newcommand', '\\renewcommand', '\\newtheorem', '\\usepackage',
+            '\\documentclass', '\\LTinput', '\\gls@defglossaryentry', '\\babel@skip@space'}
+
+
+def catalogue():
+    """every macro and environment the parser knows with all packages and
+    each document class: (name, argument codes) / (name, argument codes)"""
+    global _CAT
+    if _CAT is None:
+        from yalafi import parameters, parser, tex2txt
+        macs, envs = {}, {}
+        for dcls in ('', 'article', 'book', 'report', 'scrartcl', 'scrbook', 'scrreprt'):
+            parms = parameters.Parameters('en')
+            packs = tex2txt.get_packages(dcls, parms.class_modules)
+            packs.extend(tex2txt.get_packages('*', parms.package_modules))
+            p = parser.Parser(parms, packs)
+            for n, m in p.the_macros.items():
+                macs.setdefault(n, (m.args, dcls))
+            for n, e in p.the_environments.items():
+                envs.setdefault(n, (e.args, dcls))
+        _CAT = (sorted(macs.items()), sorted(envs.items()))
+    return _CAT
+
+
+def catalogue_cases(rng, n):
+    """one use of a catalogue entry between two words, in running text, in a
+    footnote, in the argument of a user macro or in a heading"""
+    macs, envs = catalogue()
+    pool = [('m', x) for x in macs if x[0] not in CAT_SKIP] + [('e', x) for x in envs]
+    pick = []
+    while len(pick) < n:
+        k = min(n - len(pick), len(pool))
+        pick += pool if k == len(pool) else rng.sample(pool, k)
+    for kind, (name, (args, dcls)) in pick:
+        a = ''
+        for code in args:
+            if code == '*':
+                a += rng.choice(['', '*'])
+            elif code == 'O':
+                a += rng.choice(['', '[oo]', '[o p]'])
+            else:
+                a += '{german}' if name in ('\\foreignlanguage', '\\selectlanguage',
+                                            'otherlanguage', 'otherlanguage*') \
+                    else rng.choice(['{ma}', '{ma mb}', '{m}'])
+        if kind == 'm':
+            call = name + a
+            if call[-1].isalpha() or call[-1] == '@':
+                call += '{}'
+        else:
+            call = '\\begin{' + name + '}' + a + ' zz \\end{' + name + '}'
+        ctx = rng.randrange(5)
+        if ctx == 0:
+            tex = 'Before ' + call + ' after.\n'
+        elif ctx == 1:
+            tex = 'Before\\footnote{fa ' + call + ' fb} after.\n'
+        elif ctx == 2:
+            tex = '\\newcommand{\\um}[1]{#1}Before \\um{ua ' + call + ' ub} after.\n'
+        elif ctx == 3:
+            tex = 'Before ' + call + '\n\n' + call + ' after ' + call + '\n'
+        else:
+            tex = 'Before\n' + call + '\nafter.\n'
+        o = options(rng, rng.random() < 0.3)
+        o['pack'] = '*'
+        o['dcls'] = dcls
+        o['repl'] = None
+        o['extr'] = ''
+        o['unkn'] = rng.random() < 0.1
+        yield parsecase.T2T(tex, files=dict(FILES), **o), None, 'catalogue'
+
+
 def run_seeds(rng, res, project, tier, share=1.0):
     """the seed stream for properties with a generator of their own"""
     n = int((250 if tier == 'quick' else 6000) * share)
     cases = list(seed_cases(rng, n))
+    cases += list(catalogue_cases(rng, int((120 if tier == 'quick' else 3000) * share)))
     for i in range(0, len(cases), 2000):
         run(cases[i:i + 2000], res, 'seed', project, lambda *a: None)
 
